@@ -73,6 +73,65 @@ Proof.
     pose proof (round_up_le_mult _ _ _ Ha Hm Hl). lia.
 Qed.
 
+(* ---- the NUL-terminated writers ---- *)
+Lemma write_text_len n z bs : length (write_text n z bs) = n.
+Proof.
+  unfold write_text. destruct z; [|apply write_fixed_len]. destruct n as [|k]; [reflexivity|].
+  rewrite app_length, write_fixed_len. cbn [length]. lia.
+Qed.
+(* in-domain text for the terminated writer is one byte shorter than the field *)
+Definition text_room (n : nat) (z : bool) : nat := if z then Nat.pred n else n.
+Lemma write_text_short n z bs : (length bs <= text_room n z)%nat -> (z = true -> 0 < n)%nat ->
+  write_text n z bs = bs ++ repeat 0 (n - length bs).
+Proof.
+  unfold text_room. intros Hl Hz. unfold write_text. destruct z; [|apply write_fixed_short; exact Hl].
+  specialize (Hz eq_refl). destruct n as [|k]; [lia|]. cbn [Nat.pred] in Hl.
+  rewrite write_fixed_short by exact Hl. rewrite <- app_assoc. f_equal.
+  replace (S k - length bs)%nat with ((k - length bs) + 1)%nat by lia. rewrite repeat_app. reflexivity.
+Qed.
+Lemma last_app_one {A} (l : list A) x d : last (l ++ [x]) d = x.
+Proof. induction l as [|a l IH]; [reflexivity|]. cbn [app]. destruct (l ++ [x]) eqn:E; [destruct l; discriminate|]. exact IH. Qed.
+Lemma last_repeat0 k : last (repeat 0 k) 0 = 0.
+Proof. induction k as [|k IH]; [reflexivity|]. cbn [repeat]. destruct (repeat 0 k); [reflexivity|exact IH]. Qed.
+Lemma last_app_repeat0 (l : list N) k : l <> [] -> last l 0 = 0 -> last (l ++ repeat 0 k) 0 = 0.
+Proof.
+  intros Hne Hl. induction k as [|k IH]; [rewrite app_nil_r; exact Hl|].
+  replace (S k) with (k + 1)%nat by lia. rewrite repeat_app, app_assoc. cbn [repeat]. apply last_app_one.
+Qed.
+(* the terminated fixed writer always ends in NUL *)
+Lemma write_text_z_terminated n bs : (0 < n)%nat -> last (write_text n true bs) 1 = 0.
+Proof. intros Hn. unfold write_text. destruct n as [|k]; [lia|]. apply last_app_one. Qed.
+Lemma write_aligned_z_len max align bs : (0 < align)%nat -> (0 < max)%nat ->
+  length (write_aligned_z max align bs) = Nat.min max (round_up (S (Nat.min (length bs) (Nat.pred max))) align).
+Proof.
+  intros Ha Hm. unfold write_aligned_z. set (r := firstn (Nat.pred max) bs ++ [0]).
+  assert (Hr : length r = S (Nat.min (length bs) (Nat.pred max))).
+  { unfold r. rewrite app_length, firstn_length. cbn [length]. lia. }
+  rewrite app_length, repeat_length, Hr.
+  pose proof (round_up_ge (S (Nat.min (length bs) (Nat.pred max))) align Ha). lia.
+Qed.
+(* ... and so does the terminated aligned writer *)
+Lemma write_aligned_z_terminated max align bs : last (write_aligned_z max align bs) 1 = 0.
+Proof.
+  unfold write_aligned_z. set (r := firstn (Nat.pred max) bs ++ [0]).
+  assert (Hne : r <> []) by (unfold r; destruct (firstn (Nat.pred max) bs); discriminate).
+  assert (Hl : last r 0 = 0) by (unfold r; apply last_app_one).
+  assert (H1 : forall l : list N, l <> [] -> last l 1 = last l 0).
+  { intros l. induction l as [|a l IH]; [congruence|]. intros _. destruct l; [reflexivity|]. cbn [last]. cbn [last] in IH. apply IH. discriminate. }
+  rewrite H1; [apply last_app_repeat0; assumption|]. destruct r; [congruence|discriminate].
+Qed.
+Lemma strip_nul_app_nul bs t : forallb (fun b => negb (b =? 0)) bs = true -> strip_nul (bs ++ 0 :: t) = bs.
+Proof.
+  induction bs as [|b bs IH]; cbn [forallb app strip_nul]; [reflexivity|]. intros H. apply andb_prop in H as [Hb H].
+  destruct (b =? 0); [discriminate|]. rewrite IH by exact H. reflexivity.
+Qed.
+Lemma write_aligned_z_strip max align bs : (length bs <= Nat.pred max)%nat ->
+  forallb (fun b => negb (b =? 0)) bs = true -> strip_nul (write_aligned_z max align bs) = bs.
+Proof.
+  intros Hl Hnz. unfold write_aligned_z. rewrite firstn_all2 by exact Hl. rewrite <- app_assoc. cbn [app].
+  apply strip_nul_app_nul. exact Hnz.
+Qed.
+
 Lemma pow256_pos w : 0 < pow256 w.
 Proof. unfold pow256. assert (256 ^ N.of_nat w <> 0) by (apply N.pow_nonzero; lia). lia. Qed.
 
@@ -205,7 +264,7 @@ Section Generic.
     - destruct (n <? 2); [|discriminate]. intros [= <-]. reflexivity.
     - intros [= <-]. reflexivity.
     - destruct cap as [c|]; [destruct (c <? cnt)|]; try discriminate; intros [= <-]; apply le_enc_len.
-    - intros [= <-]. apply write_fixed_len.
+    - intros [= <-]. apply write_text_len.
     - destruct (_ <? _); [|discriminate]. intros [= <-]. apply le_enc_len.
   Qed.
 
@@ -236,20 +295,23 @@ Section Generic.
     match t, tv with
     | TVec elt pm pk, TVRows rows => (length rows * fixed_width elt + Nat.modulo (length rows) pm * pk)%nat
     | TWords, TVWords ws => (4 * length ws)%nat
-    | TTextEof mx al, TVText bs => Nat.min mx (round_up (length bs) al)
+    | TTextEof mx al z, TVText bs =>
+        if z then Nat.min mx (round_up (S (Nat.min (length bs) (Nat.pred mx))) al) else Nat.min mx (round_up (length bs) al)
     | _, _ => 0%nat
     end.
   Definition tail_align_ok (t : tail) : bool :=
-    match t with TTextEof _ al => Nat.ltb 0 al | _ => true end.
+    match t with TTextEof mx al z => Nat.ltb 0 al && (negb z || Nat.ltb 0 mx) | _ => true end.
 
   Lemma enc_tail_len t tv b : tail_align_ok t = true -> enc_tail t tv = Ok b -> length b = tail_size t tv.
   Proof.
-    intros Hal. destruct t as [|elt pm pk| |mx al]; destruct tv; cbn [Layout.enc_tail tail_size]; try discriminate.
+    intros Hal. destruct t as [|elt pm pk| |mx al z]; destruct tv; cbn [Layout.enc_tail tail_size]; try discriminate.
     - intros [= <-]. reflexivity.
     - destruct (Layout.enc_rows cenc elt rows) as [b1| |] eqn:E; try discriminate. intros [= <-].
       rewrite app_length, repeat_length, (enc_rows_len _ _ _ E). reflexivity.
     - destruct (forallb _ ws); [|discriminate]. intros [= <-]. apply enc_words_len.
-    - intros [= <-]. apply write_aligned_len. cbn in Hal. apply Nat.ltb_lt. exact Hal.
+    - intros [= <-]. cbn [tail_align_ok] in Hal. apply andb_prop in Hal as [Hal Hz]. apply Nat.ltb_lt in Hal. destruct z.
+      + apply write_aligned_z_len; [exact Hal|]. cbn [negb orb] in Hz. apply Nat.ltb_lt. exact Hz.
+      + apply write_aligned_len. exact Hal.
   Qed.
 
   Theorem enc_struct_len l vs tv b : tail_align_ok (ltail l) = true -> enc_struct l vs tv = Ok b ->
@@ -274,7 +336,7 @@ Section Generic.
     | ABool, VN n => n <? 2
     | AChar8, VN n => n <? 256
     | ACount _ _, VU => true
-    | AText n, VB bs => Nat.leb (length bs) n && nonul bs
+    | AText n z, VB bs => Nat.leb (length bs) (text_room n z) && nonul bs && (negb z || Nat.ltb 0 n)
     | ADur w scale, VN ms => (0 <? scale) && (ms mod scale =? 0) && (ms / scale <? pow256 w)
     | ACustom c, v => cindom c v
     | _, _ => false
@@ -314,8 +376,9 @@ Section Generic.
       destruct cap as [c|]; [destruct (c <? cnt); [discriminate|]|]; intros [= <-];
         rewrite le_dec_enc by exact Hlt; reflexivity.
     - (* AText *)
-      intros Hd [= <-]. apply andb_prop in Hd as [Hl Hz]. apply Nat.leb_le in Hl.
-      rewrite write_fixed_short by exact Hl. rewrite strip_nul_app_zeros by exact Hz. reflexivity.
+      intros Hd [= <-]. apply andb_prop in Hd as [Hd Hpos]. apply andb_prop in Hd as [Hl Hz]. apply Nat.leb_le in Hl.
+      rewrite write_text_short; [rewrite strip_nul_app_zeros by exact Hz; reflexivity|exact Hl|].
+      intros ->. cbn in Hpos. apply Nat.ltb_lt. exact Hpos.
     - (* ADur *)
       intros Hd. apply andb_prop in Hd as [Hd Hq]. apply andb_prop in Hd as [Hs Hm]. rewrite Hq.
       intros [= <-]. apply N.ltb_lt in Hq, Hs. apply N.eqb_eq in Hm. unfold pow256 in Hq.
@@ -438,14 +501,14 @@ Section Generic.
     | TNone, TVNone => true
     | TVec elt pm pk, TVRows rows => negb (has_count elt) && forallb (findom elt) rows
     | TWords, TVWords ws => forallb (fun w => w <? pow256 4) ws && nodupb ws
-    | TTextEof mx al, TVText bs =>
-        Nat.ltb 0 al && Nat.eqb (Nat.modulo mx al) 0 && Nat.leb (length bs) mx && nonul bs
+    | TTextEof mx al z, TVText bs =>
+        Nat.ltb 0 al && Nat.eqb (Nat.modulo mx al) 0 && Nat.leb (length bs) (text_room mx z) && nonul bs
     | _, _ => false
     end.
 
   (* the whole struct: for tails that end at the frame boundary (until-eof text) [rest] is empty *)
   Definition rest_ok (t : tail) (rest : list N) : Prop :=
-    match t with TTextEof _ _ => rest = [] | _ => True end.
+    match t with TTextEof _ _ _ => rest = [] | _ => True end.
 
   Definition sindom (l : layout) (vs : list value) (tv : tvalue) : bool :=
     findom (fixed l) vs && tindom (ltail l) tv && count_fits (fixed l) (tail_count tv)
@@ -463,7 +526,7 @@ Section Generic.
     destruct (Layout.enc_tail cenc (ltail l) tv) as [b2| |] eqn:E2; try discriminate.
     intros [= <-]. rewrite <- app_assoc.
     rewrite (dec_enc_fixed _ _ _ _ (b2 ++ rest) None Hf Hfit Hslots E1).
-    destruct (ltail l) as [|elt pm pk| |mx al]; destruct tv; cbn [tindom] in Ht; try discriminate;
+    destruct (ltail l) as [|elt pm pk| |mx al z]; destruct tv; cbn [tindom] in Ht; try discriminate;
       cbn [Layout.enc_tail] in E2; cbn [Layout.dec_tail tail_count].
     - injection E2 as <-. destruct (has_count (fixed l)); reflexivity.
     - rewrite Hhc. apply andb_prop in Ht as [Hnc Hrows]. apply negb_true_iff in Hnc.
@@ -476,7 +539,8 @@ Section Generic.
       apply forallb_forall. intros x _. reflexivity.
     - injection E2 as <-. cbn [rest_ok] in Hrest. subst rest. rewrite app_nil_r.
       apply andb_prop in Ht as [Ht Hnz]. apply andb_prop in Ht as [Ht Hl]. apply andb_prop in Ht as [Ha Hm].
-      apply Nat.ltb_lt in Ha. apply Nat.eqb_eq in Hm. apply Nat.leb_le in Hl.
-      rewrite (write_aligned_strip mx al bs Ha Hm Hl Hnz). destruct (has_count (fixed l)); reflexivity.
+      apply Nat.ltb_lt in Ha. apply Nat.eqb_eq in Hm. apply Nat.leb_le in Hl. destruct z; cbn [text_room] in Hl.
+      + rewrite (write_aligned_z_strip mx al bs Hl Hnz). destruct (has_count (fixed l)); reflexivity.
+      + rewrite (write_aligned_strip mx al bs Ha Hm Hl Hnz). destruct (has_count (fixed l)); reflexivity.
   Qed.
 End Generic.
